@@ -175,8 +175,42 @@ func chainOnce(t schema.Type, typed *cz.TypedOps, raw any) (accepted bool, v1, w
 		fail("unserialize", "panic", map[string]any{"panic": u1.Panic.Msg}, u1.Panic.Frame)
 		return false, nil, nil, fails
 	}
+	// typed and untyped entry points agree on the raw value ITSELF as well - also where both have to reject:
+	// ValidateType / SerializeType against Validate / Serialize when the raw value is of the entry points' type
+	// (a NaN float64 on a bounded float schema, ...), UnserializeType against a rejecting Unserialize
+	if typed != nil {
+		if tv := callTyped(typed, "valid", raw); !tv.NA {
+			uv := callUntyped(t, "valid", raw)
+			switch {
+			case tv.Panic != nil && uv.Panic == nil:
+				fail("typed_validate_raw", "panic", map[string]any{"panic": tv.Panic.Msg}, tv.Panic.Frame)
+			case tv.Panic == nil && uv.Panic == nil && (tv.Err == nil) != (uv.Err == nil):
+				fail("typed_validate_raw", "verdict", map[string]any{"untyped": fmt.Sprint(uv.Err), "typed": fmt.Sprint(tv.Err)}, "")
+			}
+		}
+		if ts := callTyped(typed, "ser", raw); !ts.NA {
+			us := callUntyped(t, "ser", raw)
+			switch {
+			case ts.Panic != nil && us.Panic == nil:
+				fail("typed_serialize_raw", "panic", map[string]any{"panic": ts.Panic.Msg}, ts.Panic.Frame)
+			case ts.Panic == nil && us.Panic == nil && (ts.Err == nil) != (us.Err == nil):
+				fail("typed_serialize_raw", "verdict", map[string]any{"untyped": fmt.Sprint(us.Err), "typed": fmt.Sprint(ts.Err)}, "")
+			case ts.Panic == nil && us.Panic == nil && ts.Err == nil && !eqGo(us.Val, ts.Val):
+				fail("typed_serialize_raw", "value", map[string]any{"untyped": fmt.Sprintf("%#v", us.Val), "typed": fmt.Sprintf("%#v", ts.Val)}, "")
+			}
+		}
+	}
 	if u1.Err != nil {
-		return false, nil, nil, nil
+		if typed != nil {
+			tu := callTyped(typed, "unser", raw)
+			switch {
+			case tu.Panic != nil:
+				fail("typed_unserialize", "panic", map[string]any{"panic": tu.Panic.Msg, "untyped": u1.Err.Error()}, tu.Panic.Frame)
+			case tu.Err == nil:
+				fail("typed_unserialize", "accepts", map[string]any{"untyped": u1.Err.Error(), "typed": fmt.Sprintf("%#v", tu.Val)}, "")
+			}
+		}
+		return false, nil, nil, fails
 	}
 	v1 = u1.Val
 	call("validate", "valid", v1)
@@ -328,6 +362,9 @@ func runChain(c *vecCase) *resT {
 			isTyped := strings.HasPrefix(step, "typed")
 			if isTyped {
 				class = "native" // the typed entry points are compared on the value the untyped ones produced
+				if strings.HasSuffix(step, "_raw") {
+					class = c.Arg.Coarse() // ... or on the raw value itself
+				}
 			} else if step != "unserialize" {
 				kind, class = chainFault(c.S, c.Arg, e, step)
 			}
@@ -341,11 +378,16 @@ func runChain(c *vecCase) *resT {
 			return sig
 		}
 		if !accepted {
-			if len(fails) > 0 { // a panic in the first step
+			if len(fails) > 0 { // a panic in the first step / the typed entry points disagree with the rejecting untyped ones
 				f := fails[0]
 				f.det["emb"], f.det["go_arg"], f.det["decodable"] = e.Name, fmt.Sprintf("%#v", raw), c.Arg.Decodable()
-				r.miss(sigOf(f.step, f.div, f.frame), f.det)
-			} else if c.Exp.OK == "yes" {
+				sg := sigOf(f.step, f.div, f.frame)
+				if strings.HasPrefix(f.step, "typed") {
+					sg["arg_class"] = c.Arg.Coarse()
+				}
+				r.miss(sg, f.det)
+			}
+			if c.Exp.OK == "yes" {
 				r.miss(map[string]any{"op": "unser", "entry": "untyped", "kind_at_fault": c.S.Kind, "arg_class": c.Arg.Class(), "divergence": "rejects"},
 					map[string]any{"emb": e.Name, "go_arg": fmt.Sprintf("%#v", raw)})
 			}
